@@ -70,7 +70,12 @@ func genC04(r *sim.Rand, tier string) *sim.Program {
 		return n
 	}
 	for i := 0; i < nrec; i++ {
-		op := p.Add("seal", lenPick(), r.Near(80, 0, 1, 15, 16, 17, 32, 64), r.Weighted(4, 3, 2, 2, 1), r.Intn(256))
+		al := r.Near(80, 0, 1, 15, 16, 17, 32, 64)
+		if r.Chance(1, 40) {
+			// the associated-data length encodings of CCM change at 2^16-2^8 and 2^16 (RFC 3610); same classes for GCM
+			al = r.PickInt(0xfeff, 0xff00, 0xff01, 0xff80, 0xffff, 0x10000, 0x10001)
+		}
+		op := p.Add("seal", lenPick(), al, r.Weighted(4, 3, 2, 2, 1), r.Intn(256))
 		nonce := r.Bytes(p.C("nonce"))
 		if !ccm && p.C("nonce") == 16 && r.Chance(1, 2) {
 			// crafted later from this J0: low 32 bits just below the wrap
@@ -284,6 +289,12 @@ func execC04(t *testing.T, p *sim.Program, c *sim.Ctx) {
 			if al < 0 {
 				al = 0
 			}
+			if al > 1<<17 {
+				al = 1 << 17
+			}
+			if al >= 0xfeff {
+				c.Hit("probe:aad-length-encoding-boundary")
+			}
 			if pl > 1<<16 {
 				pl = 1 << 16
 			}
@@ -408,6 +419,9 @@ func execC04(t *testing.T, p *sim.Program, c *sim.Ctx) {
 				stride := 1
 				if total > 700 {
 					stride = (total + 699) / 700 // long records: evenly sampled positions (exhaustive up to 700 bytes)
+				}
+				if total > 8000 {
+					stride = (total + 47) / 48 // very long associated data: the bit-serial model dominates
 				}
 				for pos := 0; pos < total && !c.Failed(); pos += stride {
 					n, ad, s := append([]byte{}, r.nonce...), append([]byte{}, r.aad...), append([]byte{}, r.sealed...)
